@@ -125,11 +125,18 @@ Record node := mkN {
   (* volatile, leader controller *)
   n_trk : option (Z * Z * Z);   (* quorum tracker (rf 1): next offset, head, commit *)
   n_gen : nat;                  (* tracker generation *)
-  n_pend : list (Z * nat)       (* writes appended, sync callback pending: offset, generation *)
+  n_pend : list (Z * nat);      (* writes appended, sync callback pending: offset, generation *)
+  (* what a snapshot install that failed half-way leaves behind (follower controller) *)
+  n_termlost : bool;            (* the DB directory was wiped: the term (and commit offset) on disk are gone, the
+                                   controller still holds them in memory *)
+  n_fcommit : Z                 (* fc.commitOffset: the commit offset the follower controller answers in GetStatus *)
 }.
 
+(* the term a controller created now would read from the DB *)
+Definition dterm (n : node) : Z := if n.(n_termlost) then -1 else n.(n_term).
+
 Definition init : node :=
-  mkN (-1) [] O (-1) RNone NotMember (-1) 0 None [] false None O [].
+  mkN (-1) [] O (-1) RNone NotMember (-1) 0 None [] false None O [] false (-1).
 
 Inductive action :=
 | NewTermReq (t : Z)
@@ -139,14 +146,15 @@ Inductive action :=
 | SyncBegin (sid : nat)
 | SyncEnd (sid : nat)
 | StreamBreak (sid : nat)
-| SnapshotInstall (sid : nat) (t : Z) (c : Z)
+| SnapshotInstall (sid : nat) (t : Z) (c : Z) (f : nat)   (* f: 0 complete, 1 stream fails before the first chunk,
+                                                              2 stream fails later, 3 a later chunk has another term *)
 | CrashRestart (k : nat)
 | BecomeLeaderReq (t : Z)
 | ClientWrite (p : Z)
 | LeaderSyncDone.
 
 Inductive err := EInvalidTerm | EInvalidStatus | EAlreadyConnected | EInvalidNextOffset
-               | EOutOfBounds | ENotLeader | ENotFound | EWalRead | EClosed | ENoSuchStream.
+               | EOutOfBounds | ENotLeader | ENotFound | EWalRead | EClosed | ENoSuchStream | EStream.
 
 Inductive result :=
 | ROk                               (* no payload *)
@@ -164,12 +172,12 @@ Definition status_of_term (t : Z) : status := if t =? -1 then NotMember else Fen
 
 Definition open_follower (n : node) : node :=
   let lo := last_off n.(n_wal) in
-  mkN n.(n_term) n.(n_wal) (length n.(n_wal)) n.(n_commit) RFollower (status_of_term n.(n_term))
-      (if lo =? -1 then n.(n_commit) else lo) 0 None [] false None n.(n_gen) [].
+  mkN (dterm n) n.(n_wal) (length n.(n_wal)) n.(n_commit) RFollower (status_of_term (dterm n))
+      (if lo =? -1 then n.(n_commit) else lo) 0 None [] false None n.(n_gen) [] false n.(n_commit).
 
 Definition open_leader (n : node) : node :=
-  mkN n.(n_term) n.(n_wal) (length n.(n_wal)) n.(n_commit) RLeader (status_of_term n.(n_term))
-      (-1) 0 None [] false None n.(n_gen) [].
+  mkN (dterm n) n.(n_wal) (length n.(n_wal)) n.(n_commit) RLeader (status_of_term (dterm n))
+      (-1) 0 None [] false None n.(n_gen) [] false n.(n_commit).
 
 (* shards_director.go: GetOrCreateFollower(term) *)
 Definition get_or_create_follower (n : node) (t : Z) : option node :=
@@ -186,29 +194,40 @@ Definition get_or_create_leader (n : node) : node :=
 (* ---- field updates *)
 Definition set_wal (n : node) (w : list entry) (s : nat) : node :=
   mkN n.(n_term) w s n.(n_commit) n.(n_role) n.(n_status) n.(n_last) n.(n_adv) n.(n_cur)
-      n.(n_streams) n.(n_signal) n.(n_trk) n.(n_gen) n.(n_pend).
+      n.(n_streams) n.(n_signal) n.(n_trk) n.(n_gen) n.(n_pend) n.(n_termlost) n.(n_fcommit).
+(* db.UpdateTerm(t) + status *)
 Definition set_term_status (n : node) (t : Z) (st : status) : node :=
   mkN t n.(n_wal) n.(n_synced) n.(n_commit) n.(n_role) st n.(n_last) n.(n_adv) n.(n_cur)
-      n.(n_streams) n.(n_signal) n.(n_trk) n.(n_gen) n.(n_pend).
-Definition set_status (n : node) (st : status) : node := set_term_status n n.(n_term) st.
+      n.(n_streams) n.(n_signal) n.(n_trk) n.(n_gen) n.(n_pend) false n.(n_fcommit).
+Definition set_status (n : node) (st : status) : node :=
+  mkN n.(n_term) n.(n_wal) n.(n_synced) n.(n_commit) n.(n_role) st n.(n_last) n.(n_adv) n.(n_cur)
+      n.(n_streams) n.(n_signal) n.(n_trk) n.(n_gen) n.(n_pend) n.(n_termlost) n.(n_fcommit).
+Definition set_fcommit (n : node) (c : Z) : node :=
+  mkN n.(n_term) n.(n_wal) n.(n_synced) n.(n_commit) n.(n_role) n.(n_status) n.(n_last) n.(n_adv) n.(n_cur)
+      n.(n_streams) n.(n_signal) n.(n_trk) n.(n_gen) n.(n_pend) n.(n_termlost) c.
+(* the DB directory is removed (NewSnapshotLoader) and not replaced: term and commit offset are gone from the disk;
+   the term of the first chunk is taken over in memory *)
+Definition wipe_db (n : node) (t : Z) : node :=
+  mkN t n.(n_wal) n.(n_synced) (-1) n.(n_role) n.(n_status) n.(n_last) n.(n_adv) n.(n_cur)
+      n.(n_streams) n.(n_signal) n.(n_trk) n.(n_gen) n.(n_pend) true n.(n_fcommit).
 Definition set_cur (n : node) (c : option nat) : node :=
   mkN n.(n_term) n.(n_wal) n.(n_synced) n.(n_commit) n.(n_role) n.(n_status) n.(n_last) n.(n_adv) c
-      n.(n_streams) n.(n_signal) n.(n_trk) n.(n_gen) n.(n_pend).
+      n.(n_streams) n.(n_signal) n.(n_trk) n.(n_gen) n.(n_pend) n.(n_termlost) n.(n_fcommit).
 Definition set_streams (n : node) (l : list stream) : node :=
   mkN n.(n_term) n.(n_wal) n.(n_synced) n.(n_commit) n.(n_role) n.(n_status) n.(n_last) n.(n_adv) n.(n_cur)
-      l n.(n_signal) n.(n_trk) n.(n_gen) n.(n_pend).
+      l n.(n_signal) n.(n_trk) n.(n_gen) n.(n_pend) n.(n_termlost) n.(n_fcommit).
 Definition set_signal (n : node) (b : bool) : node :=
   mkN n.(n_term) n.(n_wal) n.(n_synced) n.(n_commit) n.(n_role) n.(n_status) n.(n_last) n.(n_adv) n.(n_cur)
-      n.(n_streams) b n.(n_trk) n.(n_gen) n.(n_pend).
+      n.(n_streams) b n.(n_trk) n.(n_gen) n.(n_pend) n.(n_termlost) n.(n_fcommit).
 Definition set_last_adv (n : node) (l a : Z) : node :=
   mkN n.(n_term) n.(n_wal) n.(n_synced) n.(n_commit) n.(n_role) n.(n_status) l a n.(n_cur)
-      n.(n_streams) n.(n_signal) n.(n_trk) n.(n_gen) n.(n_pend).
+      n.(n_streams) n.(n_signal) n.(n_trk) n.(n_gen) n.(n_pend) n.(n_termlost) n.(n_fcommit).
 Definition set_commit (n : node) (c : Z) : node :=
   mkN n.(n_term) n.(n_wal) n.(n_synced) c n.(n_role) n.(n_status) n.(n_last) n.(n_adv) n.(n_cur)
-      n.(n_streams) n.(n_signal) n.(n_trk) n.(n_gen) n.(n_pend).
+      n.(n_streams) n.(n_signal) n.(n_trk) n.(n_gen) n.(n_pend) n.(n_termlost) n.(n_fcommit).
 Definition set_leader (n : node) (trk : option (Z * Z * Z)) (g : nat) (p : list (Z * nat)) : node :=
   mkN n.(n_term) n.(n_wal) n.(n_synced) n.(n_commit) n.(n_role) n.(n_status) n.(n_last) n.(n_adv) n.(n_cur)
-      n.(n_streams) n.(n_signal) trk g p.
+      n.(n_streams) n.(n_signal) trk g p n.(n_termlost) n.(n_fcommit).
 
 Definition find_stream (n : node) (sid : nat) : option stream :=
   find (fun s => Nat.eqb (s_id s) sid) n.(n_streams).
@@ -341,16 +360,22 @@ Definition follower_stream_break (n : node) (sid : nat) : node * output :=
 
 (* SendSnapshot + handleSnapshot (one critical section).  Before the repair the WAL (and the DB,
    with the stored term: not modelled) are wiped before the term of the first chunk is looked at *)
-Definition follower_snapshot (cf : cfg) (n : node) (sid : nat) (t : Z) (c : Z) : node * output :=
+Definition follower_snapshot (cf : cfg) (n : node) (sid : nat) (t : Z) (c : Z) (f : nat) : node * output :=
   match n.(n_cur) with
   | Some _ => (n, out (RErr EAlreadyConnected))
   | None =>
     let bad_term := negb (n.(n_term) =? -1) && negb (t =? n.(n_term)) in
+    if cf.(fix_snap) && Nat.eqb f 1 then (n, out (RErr EStream)) else
     if cf.(fix_snap) && bad_term then (n, out (RErr EInvalidTerm)) else
     let n1 := set_wal n [] O in
-    if bad_term then (n1, out (RErr EInvalidTerm))
-    else
-      (set_last_adv (set_commit (set_term_status n1 t n1.(n_status)) c) c n1.(n_adv), out (RSnap c))
+    if Nat.eqb f 1 then (wipe_db n1 n1.(n_term), out (RErr EStream)) else
+    if bad_term then (wipe_db n1 n1.(n_term), out (RErr EInvalidTerm)) else
+    (* the first chunk has been accepted: WAL cleared, DB closed and its directory emptied *)
+    match f with
+    | 2%nat => (wipe_db n1 t, out (RErr EStream))
+    | 3%nat => (wipe_db n1 t, out (RErr EInvalidTerm))
+    | _ => (set_fcommit (set_last_adv (set_commit (set_term_status n1 t n1.(n_status)) c) c n1.(n_adv)) c, out (RSnap c))
+    end
   end.
 
 (* ---- leader_controller.go (replication factor 1: no cursors) *)
@@ -450,10 +475,10 @@ Definition step (c : cfg) (n : node) (a : action) : node * output :=
     | None => (n, out (RErr EInvalidTerm))
     | Some n1 => follower_replicate_open c n1 sid t
     end
-  | SnapshotInstall sid t cm =>
+  | SnapshotInstall sid t cm f =>
     match get_or_create_follower n t with
     | None => (n, out (RErr EInvalidTerm))
-    | Some n1 => follower_snapshot c n1 sid t cm
+    | Some n1 => follower_snapshot c n1 sid t cm f
     end
   | FollowerAppend sid e cm =>
     match n.(n_role) with RFollower => follower_append c n sid e cm | _ => (n, out RImpossible) end
@@ -465,8 +490,8 @@ Definition step (c : cfg) (n : node) (a : action) : node * output :=
     match n.(n_role) with RFollower => follower_stream_break n sid | _ => (n, out RImpossible) end
   | CrashRestart k =>
     let k' := Nat.max n.(n_synced) (Nat.min k (length n.(n_wal))) in
-    (mkN n.(n_term) (firstn k' n.(n_wal)) k' n.(n_commit) RNone (status_of_term n.(n_term))
-         (-1) 0 None [] false None n.(n_gen) [], out ROk)
+    (mkN (dterm n) (firstn k' n.(n_wal)) k' n.(n_commit) RNone (status_of_term (dterm n))
+         (-1) 0 None [] false None n.(n_gen) [] false n.(n_commit), out ROk)
   | BecomeLeaderReq t => leader_become (get_or_create_leader n) t
   | ClientWrite p =>
     match n.(n_role) with RLeader => leader_write n p | _ => (n, out (RErr ENotLeader)) end
@@ -487,7 +512,7 @@ Definition state_after (c : cfg) (n : node) (l : list action) : node := fst (run
 (* what GetStatus answers: role, term, status, head offset, commit offset *)
 Definition status_view (n : node) : role * Z * status * Z * Z :=
   match n.(n_role) with
-  | RFollower => (RFollower, n.(n_term), n.(n_status), n.(n_last), n.(n_commit))
+  | RFollower => (RFollower, n.(n_term), n.(n_status), n.(n_last), n.(n_fcommit))
   | RLeader =>
     match n.(n_trk) with
     | Some (_, hd, cm) => (RLeader, n.(n_term), n.(n_status), hd, cm)
